@@ -12,7 +12,7 @@ import (
 
 // RenderFile renders f with File.Render and, for a deterministic sample of the outputs (chosen by
 // a hash of the bytes), once more through the File's other entry points: GoString (documented to
-// render the File, panicking on error) and Save (documented to render and write the file). All
+// render the File, panicking on error) and Save (documented to render and write the file; half the time over an existing, longer file). All
 // entry points of one File give the same bytes; a disagreement is reported as an error whose text
 // starts with "entry points disagree".
 func RenderFile(f *jen.File) ([]byte, error) {
@@ -42,6 +42,11 @@ func RenderFile(f *jen.File) ([]byte, error) {
 		if dir, err := os.MkdirTemp("", "verif-save-"); err == nil {
 			defer os.RemoveAll(dir)
 			p := filepath.Join(dir, "out.go")
+			if k%2 == 0 {
+				// the target exists and is longer than what is about to be saved (a regenerated file)
+				old := append(append([]byte("// Code generated earlier. DO NOT EDIT.\n"), out...), []byte("\nfunc removedSince() {}\n")...)
+				_ = os.WriteFile(p, old, 0o644)
+			}
 			if err := f.Save(p); err != nil {
 				return nil, fmt.Errorf("entry points disagree: File.Render succeeds, File.Save of the same File fails: %v", err)
 			}
